@@ -500,6 +500,71 @@ def pdf_check(case, tab):
     return out
 
 
+def scatter_keys(h):
+    """(block, index, key) of every non-zero scatter hyper-parameter of a case"""
+    out = []
+    for blk in ("kwargs_lens", "kwargs_kin", "kwargs_source"):
+        for k, v in (h.get(blk) or {}).items():
+            if (k.endswith("_sigma") or k == "sigma_sne") and isinstance(v, (int, float)) and v != 0:
+                out.append((blk, None, k))
+    for i, d in enumerate(h.get("kwargs_los") or []):
+        if isinstance(d, dict) and d.get("sigma", 0) != 0:
+            out.append(("kwargs_los", i, "sigma"))
+    return out
+
+
+def with_zero(h, which):
+    blk, i, k = which
+    h2 = {b: (dict(v) if isinstance(v, dict) else (None if v is None else [dict(x) for x in v])) for b, v in h.items()}
+    if i is None:
+        h2[blk][k] = 0.0
+    else:
+        h2[blk][i][k] = 0.0
+    return h2
+
+
+def eval_on(lens, case, h, seed):
+    rec = lc.Recorder(lens)
+    np.random.seed(seed)
+    out = {}
+    with rec.on():
+        try:
+            out["value"] = float(np.real(np.squeeze(lens.hyper_param_likelihood(case["ddt"], case["dd"], case["dlum"], beta_dsp=case["beta"], **h))))
+        except Exception as e:  # noqa
+            out["err"] = c03.err_enum(e)
+    return out, len(rec.data)
+
+
+def history_oracle(case, seed):
+    """The sharp-or-N decision belongs to the CALL: one lens object evaluated along a path on which one scatter at a time is
+    switched off and on again makes, at every step, as many data-likelihood evaluations as a fresh object does at that
+    point (and returns the fresh value where that is a single evaluation)."""
+    fails = []
+    h = case["hyper"]
+    for which in scatter_keys(h)[:3]:
+        h0 = with_zero(h, which)
+        fresh = {}
+        for tag, hh in (("off", h0), ("on", h)):
+            fresh[tag] = eval_on(lc.make_lens(case["ltype"], case["cfg"], case["data"]), case, hh, seed)
+        for path in (("off", "on", "off"), ("on", "off", "on")):
+            lens = lc.make_lens(case["ltype"], case["cfg"], case["data"])
+            for step, tag in enumerate(path):
+                o, n = eval_on(lens, case, h0 if tag == "off" else h, seed)
+                fo, fn = fresh[tag]
+                if ("err" in o) != ("err" in fo):
+                    fails.append("history %s, step %d (%s=%s): %s, a fresh object: %s" % ("-".join(path), step, which[2], tag, o, fo))
+                elif n != fn:
+                    fails.append("history %s of %s, step %d: %d data-likelihood evaluations on the re-used lens object, %d on a fresh one at the "
+                                 "same hyper-parameters (the sharp-or-N decision was carried over from the previous call)"
+                                 % ("-".join(path), which[2], step, n, fn))
+                elif n == 1 and fn == 1 and "value" in o and not (o["value"] == fo["value"] or (math.isnan(o["value"]) and math.isnan(fo["value"]))):
+                    fails.append("history %s of %s, step %d: single evaluation %r on the re-used object, %r on a fresh one"
+                                 % ("-".join(path), which[2], step, o["value"], fo["value"]))
+                if fails:
+                    return fails
+    return fails
+
+
 def oracle(case, runs):
     """runs: two (out, rec) evaluations under different seeds"""
     fails = []
@@ -597,6 +662,10 @@ def run(ctx, res):
         for f in oracle(case, runs2):
             res.violation("check_dist[%s]:%s" % (case["scenario"], " ".join(f.split(" ")[:4])), f, c03.to_json(case))
         o1, r1 = runs2[0]
+        if "err" not in o1 and case["applicable"] is not None:
+            res.count("history_keys=%d" % min(3, len(scatter_keys(case["hyper"]))))
+            for f in history_oracle(case, ctx.np_seed()):
+                res.violation("check_dist-history[%s]:%s" % (case["scenario"], " ".join(f.split(" ")[:4])), f, c03.to_json(case))
         if len(res.samples) < 3 and case["applicable"] and "err" not in o1:
             res.sample({"scenario": case["scenario"], "N": case["cfg"]["num_distribution_draws"], "singles": r1.singles, "value": o1["value"]})
         if "err" in o1:
